@@ -308,6 +308,9 @@ def oracle_acceptance(case):
     key = case["name"].casefold()
     # the same strings given to the constructor: same dictionary, and the reports are kept in .issues
     built = DefinitionDict(list(case["strings"]), sch)
+    nested = DefinitionDict([list(case["strings"])], sch)       # a list inside the list is accepted too
+    if sorted(i["code"] for i in nested.issues) != sorted(codes) or sorted(nested.defs) != sorted(dd.defs):
+        out.bad("constructor-drops-the-reports:nested-list", f"{case['strings']} -> {[i['code'] for i in nested.issues]}")
     if sorted(built.defs) != sorted(dd.defs):
         out.bad("constructor-accepts-differently", f"{case['strings']} -> {sorted(built.defs)} vs {sorted(dd.defs)}")
     if sorted(i["code"] for i in built.issues) != sorted(codes):
